@@ -290,6 +290,7 @@ pub fn run_check(args: &Args, spec: CheckSpec) -> ! {
         let sc = spec.scenarios.iter().find(|s| &s.name == scn).unwrap();
         let replay = json!({
             "property": spec.property,
+            "tier": args.tier.name(),
             "scenario": scn,
             "about": sc.about,
             "bounds": {"preemptions": sc.p, "faults": sc.f},
